@@ -1234,7 +1234,44 @@ impl<'a> Gen<'a> {
     /// Statements that build cyclic / aliased / shared structure and garbage (for C03/C04).
     fn gc_stmt(&mut self) -> Vec<J> {
         let ls = self.vars_of(|t| *t == Ty::ListInt);
-        match self.rng.below(16) {
+        match self.rng.below(19) {
+            16 | 17 => {
+                // a container filled, then EMPTIED IN PLACE (it keeps its storage) while aliased from
+                // other containers; collections may happen while it is empty; then it is mutated
+                // through one reference and read through the others
+                let b = self.fresh("eb");
+                let v = self.fresh("ev");
+                let d = self.fresh("ed");
+                let kind = self.rng.below(3);
+                let (init, empty, refill): (J, Vec<J>, J) = match kind {
+                    0 => (json!({"k": "list", "items": [int(1), int(2), int(3)]}),
+                          if self.rng.chance(1, 2) { vec![json!({"k": "expr", "e": mcall(var(&b), "clear", vec![])})] }
+                          else { (0..3).map(|_| json!({"k": "expr", "e": mcall(var(&b), "pop", vec![])})).collect() },
+                          json!({"k": "expr", "e": mcall(var(&b), "append", vec![int(4)])})),
+                    1 => (json!({"k": "dict", "keys": [strlit("a"), strlit("b")], "vals": [int(1), int(2)]}),
+                          if self.rng.chance(1, 2) { vec![json!({"k": "expr", "e": mcall(var(&b), "clear", vec![])})] }
+                          else { vec![json!({"k": "expr", "e": mcall(var(&b), "pop", vec![strlit("a")])}), json!({"k": "expr", "e": mcall(var(&b), "pop", vec![strlit("b")])})] },
+                          json!({"k": "assign", "tg": {"k": "index", "e": var(&b), "i": strlit("z")}, "e": int(4)})),
+                    _ => (callf("set", vec![json!({"k": "list", "items": [int(1), int(2)]})]),
+                          vec![json!({"k": "expr", "e": mcall(var(&b), "clear", vec![])})],
+                          json!({"k": "expr", "e": mcall(var(&b), "add", vec![int(4)])})),
+                };
+                let mut out = vec![assign(&b, init),
+                                   assign(&v, json!({"k": "list", "items": [var(&b), tuple(vec![var(&b)])]})),
+                                   assign(&d, json!({"k": "dict", "keys": [strlit("q")], "vals": [var(&b)]}))];
+                out.extend(empty);
+                // garbage and a few safepoints while it is empty
+                let t = self.fresh("tmp");
+                out.push(assign(&t, callf("len", vec![json!({"k": "compr", "elt": json!({"k": "list", "items": [var("q_"), var("q_")]}), "clauses": [
+                        {"k": "for", "tg": {"k": "var", "n": "q_"}, "it": callf("range", vec![int(120)])}]})])));
+                out.push(emit(var(&t)));
+                out.push(refill);
+                out.push(emit(tuple(vec![var(&v), var(&d), var(&b)])));
+                if kind == 0 {
+                    self.declare(&b, Ty::ListInt);
+                }
+                out
+            }
             11 => {
                 // bound methods kept alive alone: the receiver is reachable only through them
                 let l = self.fresh("bl");
